@@ -263,6 +263,7 @@ class World:
             else:
                 self.node.get('doing').add('T')
                 self.node.set('status', JState.running)
+                self.que_bit = True  # a unit that is executing is in the work queue
             self.sync_que()
         elif bit == 'que':
             self.que_bit = not getattr(self, 'que_bit', False)
@@ -365,6 +366,23 @@ def drain(w, steps, obs):
     steps.append({'ev': 'Quiesce', 'args': {'x': 0}, 'st': w.snapshot(), 'obs': o})
 
 
+SRC_OF = {
+    'starting_trigger': {'starting'},
+    'contemplation_trigger': {'loading'},
+    'running_trigger': {'contemplation', 'gitting', 'archiving'},
+    'gitting_trigger': {'running'},
+    'archiving_trigger': {'running', 'updating'},
+    'update_trigger': {'running'},
+    'loading_trigger': {'updating'},
+    'updating_trigger': {'archiving'},
+}
+GUARDED = {'starting_trigger', 'archiving_trigger', 'loading_trigger'}
+
+
+def not_allowed(name, st, tr):
+    return st not in SRC_OF[name] or (name in GUARDED and tr != 'active')
+
+
 def run_job(job):
     w = World()
     steps = []
@@ -438,7 +456,13 @@ def run_job(job):
                 elif ev == 'Env':
                     w.set_env(e['bit'])
                 elif ev == 'RawTrigger':
-                    getattr(w.fsm, e['name'])()
+                    # out-of-turn triggers are inputs only where the DOCUMENTED machine forbids them in the
+                    # real current state; otherwise the event is not applicable here and is skipped
+                    if not_allowed(e['name'], w.fsm.state, w.fsm.transitioning.name):
+                        w.src = 'raw'
+                        getattr(w.fsm, e['name'])()
+                    else:
+                        ok = False
                 else:
                     raise ValueError(ev)
             except Exception as ex:  # pylint: disable=broad-except
